@@ -16,6 +16,8 @@ from ..dataflow import Flow, chain, call_name
 from ..link import check_module
 from ..poly import Poly
 from ..roles import RoleFlow, check_call, name_role
+from ..terms import Terms, reify, plain, match, V, ANY, show, subterms, \
+    mk_cmp, is_none, method_calls, alternatives
 from ..util import calls_in, qual, formals, returns_of, raises_of, \
     raise_name, has_fact, decorator_names, bind
 
@@ -239,10 +241,35 @@ def r2_pairing(program, rep):
     rep.check("self.stack.append(self)" in unparse(en), "C18-R2", qual(en),
               "entering pushes this context", construct="push", node=en)
     app = program.get(MC + ":MachineController.application")
-    t = unparse(app)
-    oka = "context = self(app_id=app_id)" in t and \
-        "context.before_close(lambda: self.send_signal('stop'))" in t and \
-        "return context" in t
+    A = Terms(app)
+    SELF = ("param", "self")
+    aps = formals(app)
+    rets = [A.term(r.value) for r in returns_of(app) if r.value is not None]
+    CTX = ("callv", SELF, (), (("app_id", ("param", aps[1])),))
+    oka = len(rets) == 1 and rets[0][:4] == CTX
+    if oka:
+        oka = False
+        for n_, c, recv, args in method_calls(A, "before_close"):
+            if recv != rets[0] or len(args) != 1:
+                continue
+            cb = args[0]
+            body = None
+            if cb[0] == "lambda" and cb[1] == 0:
+                body = cb[2]
+            elif cb[0] == "local":
+                nested = [x for x in ast.walk(app)
+                          if isinstance(x, ast.FunctionDef) and
+                          x.name == cb[1]]
+                if nested and not formals(nested[0]):
+                    NT = Terms(nested[0], outer=(A, n_))
+                    rr = [NT.term(r.value) for r in returns_of(nested[0])
+                          if r.value is not None]
+                    ex = [NT.term(x.value) for x in nested[0].body
+                          if isinstance(x, ast.Expr)]
+                    body = (rr or ex or [None])[0]
+            oka = body is not None and plain(body) == (
+                "call", ("attr", SELF, "send_signal"), (("const", "stop"),),
+                ())
     rep.check(oka, "C18-R2", qual(app), "an application block carries "
               "app_id and registers the stop signal to run on exit",
               construct="application block", node=app)
@@ -383,50 +410,73 @@ def r4_satisfiable(program, rep):
 def r5_connection(program, rep):
     gc = program.get(MC + ":MachineController._get_connection")
     inst = qual(gc)
-    cs = calls_in(gc, "spinn5_local_eth_coord")
+    T = Terms(gc)
     ps = formals(gc)
-    ok = len(cs) == 1 and [unparse(a) for a in cs[0].args] == [
-        ps[1], ps[2], "self._width", "self._height", "*self._root_chip"]
+    SELF = ("param", "self")
+    CONNS = ("attr", SELF, "connections")
+    W, H, R = [("attr", SELF, a) for a in ("_width", "_height",
+                                           "_root_chip")]
+    ETH = ("call", ("global", "spinn5_local_eth_coord"),
+           (("param", ps[1]), ("param", ps[2]), W, H, ("star", R)), ())
+    cs = calls_in(gc, "spinn5_local_eth_coord")
+    ok = len(cs) == 1 and T.term(cs[0]) == ETH
     rep.check(ok, "C18-R5", inst, "the board's Ethernet chip is computed "
               "from (x, y, width, height, *root_chip) in the geometry "
               "function's order", construct="eth coord arguments", node=gc)
-    fl = Flow(gc)
-    rets = returns_of(gc)
-    forms = set()
-    for r in rets:
-        f = fl.facts(fl.cfg.node_of(r))
-        forms.add((unparse(r.value), tuple(sorted(
-            (unparse(c), p) for c, p, _ in f if "conn" in unparse(c)))))
-    okr = (("conn", (("conn is not None", True),)) in forms and
-           ("self.connections[None]", (("conn is not None", False),))
-           in forms)
-    cd = [d for d in fl.defs if d.var == "conn"]
-    okr = okr and len(cd) == 1 and unparse(cd[0].value) == \
-        "self.connections.get(eth_chip)"
+    LOCAL = ("get", CONNS, ETH)
+    DEFAULT = ("item", CONNS, ("const", None))
+    known = [(is_none(W), False), (is_none(H), False), (is_none(R), False)]
+
+    def live_returns(H_):
+        return [H_.term(r.value, H_.cfg.node_of(r)) for r in returns_of(gc)
+                if r.value is not None and H_.live(H_.cfg.node_of(r))]
+    okr = live_returns(T.under(*(known + [(is_none(LOCAL), False)]))) == [
+        LOCAL]
+    okr = okr and live_returns(T.under(*(known + [(is_none(LOCAL), True)]))) \
+        == [DEFAULT]
+    for k in range(3):
+        hyps = list(known)
+        hyps[k] = (hyps[k][0], True)
+        okr = okr and set(live_returns(T.under(*hyps))) == {DEFAULT}
     rep.check(okr, "C18-R5", inst, "the connection of the target's board is "
               "used when known, else the initial connection",
               construct="connection fallback", node=gc)
     ss = program.get(MC + ":MachineController._send_scp")
-    t = unparse(ss)
+    S = Terms(ss)
     ps = formals(ss)
-    rep.check("connection = self._get_connection(%s, %s)" % (ps[1], ps[2])
-              in t and "connection.send_scp(length, %s, %s, %s, *args, "
-              "**kwargs)" % (ps[1], ps[2], ps[3]) in t, "C18-R5", qual(ss),
+    oks = False
+    for r in returns_of(ss):
+        t = S.term(r.value) if r.value is not None else ("?",)
+        if t[0] == "callv" and t[1][0] == "attr" and t[1][2] == "send_scp":
+            conn = t[1][1]
+            oks = conn[:4] == ("callv", ("attr", SELF, "_get_connection"),
+                               (("param", ps[1]), ("param", ps[2])), ()) and \
+                list(t[2][1:4]) == [("param", p_) for p_ in ps[1:4]] and \
+                t[2][4:] == (("star", ("param", ss.args.vararg.arg)),) and \
+                t[3] == (("**", ("param", ss.args.kwarg.arg)),)
+    rep.check(oks, "C18-R5", qual(ss),
               "_send_scp picks the connection by its own x, y and forwards "
               "x, y, p", construct="_send_scp", node=ss)
     # the geometry function's index formula (also C19-R2)
+    from .C19 import _private_helpers, _wp
     g = program.get(GEO + ":spinn5_local_eth_coord")
     gfl = Flow(g)
+    G = Terms(g, helpers=_private_helpers(program))
     p6 = formals(g)
-    subs = [n for n in ast.walk(g) if isinstance(n, ast.Subscript) and
-            isinstance(n.value, ast.Subscript) and
-            chain(n.value.value) == "SPINN5_ETH_OFFSET"]
     okg = False
-    if len(subs) == 1 and len(p6) == 6:
-        node = gfl.cfg.node_containing(subs[0])
+    rets = [G.term(r.value) for r in returns_of(g) if r.value is not None]
+    cells = set()
+    for rt in rets:
+        for st_ in subterms(rt):
+            m = match(("item", ("item", ("global", "SPINN5_ETH_OFFSET"),
+                                V("i")), V("j")), st_)
+            if m is not None:
+                cells.add((m["i"], m["j"]))
+    if len(cells) == 1 and len(p6) == 6:
+        it, jt = list(cells)[0]
         x, y, w, h, rx, ry = [Poly.atom(p) for p in p6]
-        i = gfl.sym(subs[0].value.slice, node)
-        j = gfl.sym(subs[0].slice, node)
+        i = gfl.sym(_wp(reify(plain(it))), gfl.cfg.entry)
+        j = gfl.sym(_wp(reify(plain(jt))), gfl.cfg.entry)
         okg = i == gfl.mod(y - ry, Poly.const(12)) and \
             j == gfl.mod(x - rx, Poly.const(12))
     rep.check(okg, "C18-R5", qual(g), "the offset table is indexed "
@@ -436,21 +486,25 @@ def r5_connection(program, rep):
                    "wrongly: commands travel over another board's "
                    "connection when the root chip is not at the origin")
     b = program.get(BMP + ":BMPController._send_scp")
-    bfl = Flow(b)
+    B = Terms(b)
     ps = formals(b)
-    cd = [d for d in bfl.defs if d.var == "connection"]
-    okb = len(cd) == 2
-    if okb:
-        first = [d for d in cd if unparse(d.value) ==
-                 "self.connections.get((%s, %s, %s), None)" % tuple(ps[1:4])]
-        second = [d for d in cd if unparse(d.value) ==
-                  "self.connections.get((%s, %s), None)" % tuple(ps[1:3])]
-        okb = len(first) == 1 and len(second) == 1 and \
-            has_fact(bfl.facts(second[0].node), "connection is None", True) \
-            and bfl.cfg.dominates(first[0].node, second[0].node)
+    BCONNS = ("attr", SELF, "connections")
+    cab, frm, brd = [("param", p_) for p_ in ps[1:4]]
+    DIRECT = ("get", BCONNS, ("tuple", cab, frm, brd))
+    FRAME = ("get", BCONNS, ("tuple", cab, frm))
     snd = calls_in(b, "send_scp")
-    okb = okb and len(snd) == 1 and [unparse(a) for a in snd[0].args] == [
-        "length", "0", "0", ps[3], "*args"]
+    okb = len(snd) == 1
+    if okb:
+        for hyp, want in (((is_none(DIRECT), False), DIRECT),
+                          ((is_none(DIRECT), True), FRAME)):
+            Hb = B.under(hyp)
+            n_ = Hb.cfg.node_containing(snd[0])
+            okb = okb and Hb.live(n_) and \
+                Hb.term(snd[0].func.value, n_) == want
+        n_ = B.cfg.node_containing(snd[0])
+        a_ = [B.term(x, n_) for x in snd[0].args]
+        okb = okb and a_[1:] == [("const", 0), ("const", 0), brd,
+                                 ("star", ("param", b.args.vararg.arg))]
     rep.check(okb, "C18-R5", qual(b), "BMP commands try the (cabinet, "
               "frame, board) connection before (cabinet, frame) and address "
               "the board number on the wire", construct="BMP connection",
